@@ -35,6 +35,32 @@ Qed.
 Lemma text_or_empty_spec f : kf_ok text_ok f = true -> text_or_empty (to_fres k_text f) = spec_text f.
 Proof. destruct f as [n| |]; cbn; auto. apply strip_text. Qed.
 
+Lemma lstrip_app_nows x c y : is_ws c = false -> lstrip (x ++ c :: y) = lstrip x ++ c :: y.
+Proof.
+  intros Hc. induction x as [|d x IH]; cbn [app lstrip].
+  - now rewrite Hc.
+  - destruct (is_ws d); [exact IH|reflexivity].
+Qed.
+
+(* rstrip never reaches past a non-blank byte *)
+Lemma rstrip_keep a c b : is_ws c = false -> rstrip (a ++ c :: b) = a ++ c :: rstrip b.
+Proof.
+  intros Hc. unfold rstrip. rewrite rev_app_distr. cbn [rev]. rewrite <- app_assoc. cbn [app].
+  rewrite lstrip_app_nows by exact Hc. rewrite rev_app_distr. cbn [rev]. rewrite rev_involutive.
+  rewrite <- app_assoc. reflexivity.
+Qed.
+
+Lemma lstrip_blanks l : forallb is_blank l = true -> lstrip l = [].
+Proof.
+  induction l as [|c l IH]; [reflexivity|]. cbn [forallb lstrip]. intros H. apply andb_true_iff in H as [Hc Hl].
+  assert (is_ws c = true) as -> by (unfold is_blank, is_ws in *; lia). now apply IH.
+Qed.
+Lemma rstrip_blanks_nl l : forallb is_blank l = true -> rstrip (l ++ [10]) = [].
+Proof.
+  intros H. rewrite rstrip_snoc. change (is_ws 10) with true. cbv iota. unfold rstrip.
+  rewrite lstrip_blanks; [reflexivity|]. rewrite forallb_forall in *. intros x Hx. apply H. now apply in_rev.
+Qed.
+
 (* ------------------------------------------------------------ numeric attributes *)
 Lemma parse_int_same_strip a b : strip a = strip b -> parse_int a = parse_int b.
 Proof. intros H. unfold parse_int, parse_signed. now rewrite H. Qed.
@@ -62,6 +88,48 @@ Proof.
   intros H. unfold k_knum, sval. destruct neg; cbn [app].
   - now apply parse_int_neg_nl.
   - now apply parse_int_nl.
+Qed.
+
+(* int() on a signed power_supply attribute: blanks, sign, digits, blanks, newline *)
+Lemma strip_snum x : snum_ok x = true -> strip (k_snum x) = sgn_bytes (sn_sign x) ++ sn_digits x.
+Proof.
+  unfold snum_ok, k_snum. intros H. apply andb_true_iff in H as [H Ht]. apply andb_true_iff in H as [Hl Hd].
+  destruct (is_dec_tok _ Hd) as [Hne Hnw].
+  destruct (exists_last Hne) as [ds' [c E]].
+  assert (Hc : is_ws c = false).
+  { rewrite E, no_ws_app in Hnw. apply andb_true_iff in Hnw as [_ Hc]. cbn in Hc. rewrite andb_true_r in Hc.
+    now apply negb_true_iff in Hc. }
+  unfold strip.
+  assert (L : lstrip (sn_lead x ++ sgn_bytes (sn_sign x) ++ sn_digits x ++ sn_trail x ++ [10])
+              = sgn_bytes (sn_sign x) ++ sn_digits x ++ sn_trail x ++ [10]).
+  { destruct (sgn_bytes (sn_sign x) ++ sn_digits x ++ sn_trail x ++ [10]) as [|h t] eqn:E2.
+    - destruct (sn_sign x); cbn in E2; try discriminate. apply app_eq_nil in E2 as [E2 _]. congruence.
+    - assert (Hh : is_ws h = false).
+      { destruct (sn_sign x); cbn [sgn_bytes app] in E2; try (inversion E2; reflexivity).
+        destruct (sn_digits x) as [|d ds]; [congruence|]. inversion E2; subst.
+        cbn [no_ws forallb] in Hnw. apply andb_true_iff in Hnw as [Hh _]. now apply negb_true_iff in Hh. }
+      rewrite lstrip_app_nows by exact Hh. now rewrite lstrip_blanks. }
+  rewrite L. rewrite E. rewrite <- !app_assoc. cbn [app].
+  replace (sgn_bytes (sn_sign x) ++ ds' ++ c :: sn_trail x ++ [10])
+    with ((sgn_bytes (sn_sign x) ++ ds') ++ c :: (sn_trail x ++ [10])) by (now rewrite <- app_assoc).
+  rewrite rstrip_keep by exact Hc. rewrite rstrip_blanks_nl by exact Ht. now rewrite <- app_assoc.
+Qed.
+
+Lemma parse_int_snum x : snum_ok x = true -> parse_int (k_snum x) = Some (snum_val x).
+Proof.
+  intros H. pose proof (strip_snum x H) as S. unfold snum_ok in H.
+  apply andb_true_iff in H as [H _]. apply andb_true_iff in H as [_ Hd].
+  unfold parse_int, parse_signed. rewrite S. unfold snum_val.
+  destruct (sn_digits x) as [|d ds] eqn:E; [discriminate|]. unfold is_dec in Hd.
+  assert (Hdig : is_digit d = true) by (cbn [all_digits forallb] in Hd; now apply andb_true_iff in Hd as [Hd _]).
+  destruct (sn_sign x); cbn [sgn_bytes app].
+  - assert (d =? 45 = false) as -> by (unfold is_digit in Hdig; lia).
+    assert (d =? 43 = false) as -> by (unfold is_digit in Hdig; lia).
+    unfold dec_val. apply digits_us_digits; [exact Hd|left; congruence].
+  - change (43 =? 45) with false. change (43 =? 43) with true. cbv iota.
+    unfold dec_val. apply digits_us_digits; [exact Hd|left; congruence].
+  - change (45 =? 45) with true. cbv iota.
+    rewrite digits_us_digits; [reflexivity|exact Hd|left; congruence].
 Qed.
 
 Lemma py_float_knum neg ds : is_dec ds = true -> py_float (k_knum (KN neg ds)) = Val (inject_Z (sval neg ds)).
